@@ -824,7 +824,10 @@ def main():
                 "traces_validated_against_impl": len(live),
                 "samples": samples,
                 "evaluations": len(cases), "distinct_nontrivial": distinct,
-                "rule": plan.get("rule", ""),
+                "rule": plan.get("rule", "") + " -- and the systematic suites listed in generator_suites (DESIGN.md section 4.1); "
+                        "distinct = distinct (operation, input) cases",
+                "generator_suites": list(plan.get("gen", [])),
+                "cases_by_source": {k: sum(1 for c in cases if c.get("src") == k) for k in sorted({c.get("src", "?") for c in cases})},
                 "models": {n: {"distinct_states": r["distinct"], "states_generated": r["generated"],
                                "behaviours_exported": len(r["replay"]), "steps_by_pc": r["coverage"], "wall_s": r["wall_s"]}
                            for n, r in mc.items()},
